@@ -12,11 +12,34 @@ Definition mid_run (x : pcs) : bool :=
 (* the task itself has not returned yet *)
 Definition in_task (x : pcs) : bool := match x with PStart | PTask _ _ => true | _ => false end.
 
+(* every entry of an iterated result has been converted as often as the dictionary as a whole *)
+Definition ent_ok (r : res) : Prop := Forall (fun e => enconv e = nconv r) (entries r).
+(* ... with the mapping parameters overridden by its own iteration dict *)
+Definition ent_args (m : kw) (r : res) : Prop := Forall (fun e => ecargs e = override m (eiter e)) (entries r).
+
 Definition res_inv (c : cfg) (s : st) : Prop :=
   match results s with
   | None => conv_pending s = has_map c
-  | Some r => (nconv r = 0%nat /\ conv_pending s = has_map c) \/ (nconv r = 1%nat /\ conv_pending s = false /\ has_map c = true)
+  | Some r => ent_ok r /\
+              ((nconv r = 0%nat /\ conv_pending s = has_map c) \/
+               (nconv r = 1%nat /\ conv_pending s = false /\ has_map c = true /\ ent_args (mapp s) r))
   end.
+
+Lemma ent_ok_task p early a : ent_ok (task_result p early a).
+Proof.
+  unfold ent_ok, task_result. cbn. destruct (pshape p =? 1); [|constructor].
+  apply Forall_forall. intros e He. apply in_map_iff in He. destruct He as (x & <- & _). reflexivity.
+Qed.
+Lemma ent_ok_conv r m : ent_ok r -> ent_ok (conv r m).
+Proof.
+  unfold ent_ok, conv. cbn. intros H. apply Forall_forall. intros e He. apply in_map_iff in He.
+  destruct He as (x & <- & Hx). cbn. f_equal. rewrite Forall_forall in H. auto.
+Qed.
+Lemma ent_args_conv r m : ent_args m (conv r m).
+Proof.
+  unfold ent_args, conv. cbn. apply Forall_forall. intros e He. apply in_map_iff in He.
+  destruct He as (x & <- & Hx). reflexivity.
+Qed.
 
 Definition pc_inv (p : prog) (s : st) : Prop :=
   match pc s with
@@ -87,11 +110,18 @@ Proof.
   destruct (maybe_completed (status s1)) eqn:Em; cbn; [|exact H1].
   destruct (conv_pending s1) eqn:Ec; [|exact H1].
   destruct (results s1) eqn:Er; [|destruct (is_failed (status s1)); exact H1].
-  destruct (shape r =? 0); [|destruct (is_failed (status s1)); exact H1].
-  destruct H1 as (Hp & Hr & Hs & He). destruct (final_pc p s1 Hp Em) as [E|E];
-  unfold Inv, pc_inv, res_inv in *; cbn; rewrite E in *; rewrite Er in *; brk; repeat split; auto;
-    try (intros Q; apply He in Q; discriminate);
-    right; destruct Hr as [Hr|Hr]; brk; try congruence; repeat split; cbn; congruence.
+  destruct (convertible (shape r)); [|destruct (is_failed (status s1)); exact H1].
+  destruct H1 as (Hp & Hr & Hs & He). unfold res_inv in Hr. rewrite Er in Hr. destruct Hr as (Hok & Hr).
+  assert (Hn : nconv r = 0%nat /\ has_map c = true)
+    by (destruct Hr as [(N & E)|(N & E & _)]; [split; congruence|congruence]).
+  destruct Hn as (Hn & Hm).
+  split; [|split; [|split]].
+  - destruct (final_pc p s1 Hp Em) as [E|E]; unfold pc_inv in *; cbn; rewrite E in *; [exact Hp|].
+    destruct Hp as (Hl & _). split; [exact Hl|left; exact Em].
+  - unfold res_inv; cbn. split; [apply ent_ok_conv; exact Hok|]. right.
+    split; [rewrite Hn; reflexivity|]. split; [reflexivity|]. split; [exact Hm|apply ent_args_conv].
+  - exact Hs.
+  - cbn. intros Q. apply He in Q. congruence.
 Qed.
 
 Lemma waiting_idle p s : pc_inv p s -> status s = Waiting -> pc s = PIdle.
@@ -104,8 +134,9 @@ Lemma do_exec_inv c p s m a k : Inv c p s -> Inv c p (fst (do_exec c s m a k)).
 Proof.
   intros H. unfold do_exec. destruct (status s) eqn:Est; try exact H.
   destruct H as (Hp & Hr & Hs & He). pose proof (waiting_idle p s Hp Est) as Epc.
+  assert (Ern : results s = None) by (unfold pc_inv in Hp; rewrite Epc in Hp; tauto).
   destruct (handle_params _ _ _ _ _) as [[c2 m2] [e|]]; destruct (lookup N_PROGRESS_CB k); destruct m;
-    unfold Inv, pc_inv, res_inv, wk_of in *; cbn; rewrite ?Epc in *; cbn; brk; repeat split; auto; try congruence;
+    unfold Inv, pc_inv, res_inv, wk_of in *; cbn; rewrite ?Epc in *; rewrite ?Ern in *; cbn; brk; repeat split; auto; try congruence;
     try discriminate.
 Qed.
 
@@ -120,7 +151,7 @@ Proof.
   destruct v; cbn; [|repeat split; assumption].
   destruct (negb (maybe_completed x)); cbn; [repeat split; assumption|].
   destruct (conv_pending s1); [|repeat split; assumption].
-  destruct (results s1); [destruct (shape r =? 0)|]; cbn; repeat split; assumption.
+  destruct (results s1); [destruct (convertible (shape r))|]; cbn; repeat split; assumption.
 Qed.
 
 Lemma wk_inv c p s : Inv c p s -> Inv c p (fst (wk c p s)).
@@ -132,15 +163,15 @@ Proof.
     + destruct early; [|destruct (out p) eqn:Eo; [| |destruct (sync s) eqn:Esy]];
       unfold Inv, pc_inv, res_inv, wk_of in *; rewrite Epc in *; cbn; brk; rewrite ?Esy in *.
       * repeat split; auto; try congruence. exists true; repeat split; auto; discriminate.
-        left; split; [reflexivity|]. rewrite H1 in Hr; exact Hr.
+        apply ent_ok_task. left; split; [reflexivity|]. rewrite H1 in Hr; exact Hr.
       * repeat split; auto; try congruence. exists false; repeat split; auto; discriminate.
-        left; split; [reflexivity|]. rewrite H1 in Hr; exact Hr.
+        apply ent_ok_task. left; split; [reflexivity|]. rewrite H1 in Hr; exact Hr.
       * repeat split; auto; try congruence.
       * repeat split; auto; try congruence.
       * repeat split; auto; try congruence.
     + unfold Inv, pc_inv, res_inv, wk_of in *; rewrite Epc in *; cbn; brk.
       repeat split; auto; try congruence. exists true; repeat split; auto; discriminate.
-      left; split; [reflexivity|]. rewrite H1 in Hr; exact Hr.
+      apply ent_ok_task. left; split; [reflexivity|]. rewrite H1 in Hr; exact Hr.
     + cbn. destruct (cancel s) eqn:Ec; [|destruct (user_cb s)]; destruct (coop p) eqn:Eco;
       unfold Inv, pc_inv, res_inv, wk_of in *; rewrite Epc in *; cbn; rewrite ?Ec, ?Eco, ?ucb_no_cancel; cbn;
       brk; repeat split; auto; try congruence; try discriminate.
@@ -249,7 +280,7 @@ Qed.
 Definition cfg_w : cfg := mkcfg [10] [(10, None)] [] true None code_now.
 (* the same job run by the code before the repairs 5d55599b / 53f68db6 *)
 Definition cfg_old : cfg := mkcfg [10] [(10, None)] [] true None code_3e543e6e.
-Definition prog_w : prog := mkprog [(500, 1)] ORet false 0 5 6.
+Definition prog_w : prog := mkprog [(500, 1)] ORet false 0 5 6 [].
 (* HISTORICAL witness: with the old code the full statement was false *)
 Theorem status_query_running_refuted_old_code : exists p l, let s := final cfg_old p l in
   mid_run (pc s) = true /\ snd (do_status cfg_old s) = SAttrErr.
@@ -280,7 +311,9 @@ Qed.
 Lemma final_app c p l1 l2 : final c p (l1 ++ l2) = fst (run c p (final c p l1) l2).
 Proof. unfold final. apply run_app. Qed.
 
-Definition same_base (r r' : res) : Prop := shape r = shape r' /\ payload r = payload r' /\ rargs r = rargs r'.
+Definition ebase (e : entry) : Z * kw := (epay e, eiter e).
+Definition same_base (r r' : res) : Prop :=
+  shape r = shape r' /\ payload r = payload r' /\ rargs r = rargs r' /\ map ebase (entries r) = map ebase (entries r').
 Definition ores_base (o o' : option res) : Prop :=
   match o, o' with Some r, Some r' => same_base r r' | None, None => True | _, _ => False end.
 Lemma ores_base_refl o : ores_base o o.
@@ -293,8 +326,9 @@ Lemma do_get_stable c s : maybe_completed (status s) = true -> let s' := fst (do
   status s' = status s /\ msg s' = msg s /\ ores_base (results s) (results s').
 Proof.
   intros Hm. unfold do_get, do_status. destruct (status s) eqn:Est; try discriminate; cbn; rewrite ?Est; cbn;
-  (destruct (conv_pending s); [destruct (results s) eqn:Er; [destruct (shape r =? 0)|]|]; cbn; rewrite ?Er, ?Est;
-   repeat split; auto using ores_base_refl; cbn; unfold same_base; auto).
+  (destruct (conv_pending s); [destruct (results s) eqn:Er; [destruct (convertible (shape r))|]|]; cbn; rewrite ?Er, ?Est;
+   repeat split; auto using ores_base_refl; cbn; unfold same_base; cbn; repeat split; auto;
+   rewrite map_map; reflexivity).
 Qed.
 
 Lemma step_stable c p s e : Inv c p s -> maybe_completed (status s) = true -> let s' := fst (step c p s e) in
@@ -402,7 +436,7 @@ Theorem never_success_when_task_raised_partial c p l ty m : out p = ORaise ty m 
 Proof. intros Ho Hs. destruct (final_inv c p l) as (_ & _ & H & _). exact (H ty m Hs Ho). Qed.
 
 (* ... false for a BaseException that is not an Exception (asynchronous run, then a status query) *)
-Definition prog_esc : prog := mkprog [] OEscape false 0 4 6.
+Definition prog_esc : prog := mkprog [] OEscape false 0 4 6 [].
 Theorem never_success_when_task_raised_refuted : exists c p l,
   out p <> ORet /\ status (final c p l) = Success /\ results (final c p l) = None.
 Proof. exists cfg_w, prog_esc, [Act (AExec Async [3] []); Wk; Wk; Act AStatus]. vm_compute. repeat split; discriminate. Qed.
@@ -423,7 +457,7 @@ Proof.
   destruct (status s) eqn:Est; cbn; try discriminate;
   try (destruct (worker s); [destruct (status_needs_worker (ver c))| |]; cbn; try discriminate);
   rewrite ?Est; cbn;
-  (destruct (conv_pending s) eqn:Ec; [destruct (results s) eqn:Er; [destruct (shape r =? 0)|]|]; cbn;
+  (destruct (conv_pending s) eqn:Ec; [destruct (results s) eqn:Er; [destruct (convertible (shape r))|]|]; cbn;
    intros H; inversion H; subst; cbn; rewrite ?Est, ?Ec; auto).
 Qed.
 
@@ -455,14 +489,38 @@ Proof.
   rewrite (do_get_frozen c _ v (run_frozen c p l2 v _ Hi F)). reflexivity.
 Qed.
 
-(* the value is converted exactly once when there is a mapping function, never otherwise *)
+(* the value is converted exactly once when there is a mapping function, never otherwise — the dictionary as a
+   whole and, for an iterated result ('results_list'), every one of its entries *)
 Theorem results_converted_once c p l r : snd (do_get c (final c p l)) = GValue (Some r) ->
-  nconv r = if has_map c then 1%nat else 0%nat.
+  let n := if has_map c then 1%nat else 0%nat in
+  nconv r = n /\ Forall (fun e => enconv e = n) (entries r).
 Proof.
   intros H. pose proof (do_get_value_frozen c _ _ H) as (_ & Hc & Hr).
   destruct (do_get_inv c p _ (final_inv c p l)) as (_ & Ri & _). unfold res_inv in Ri. rewrite Hr in Ri.
-  destruct Ri as [(N & E)|(N & _ & E)]; rewrite N; [rewrite <- E, Hc|rewrite E]; reflexivity.
+  destruct Ri as (Hok & Ri). cbv zeta.
+  assert (N : nconv r = if has_map c then 1%nat else 0%nat).
+  { destruct Ri as [(N & E)|(N & _ & E & _)]; rewrite N; [rewrite <- E, Hc|rewrite E]; reflexivity. }
+  split; [exact N|]. unfold ent_ok in Hok. rewrite N in Hok. exact Hok.
 Qed.
+
+(* each entry of an iterated result was converted with the mapping parameters overridden by its own iteration *)
+Theorem results_list_entry_args c p l r : has_map c = true ->
+  snd (do_get c (final c p l)) = GValue (Some r) ->
+  Forall (fun e => ecargs e = override (mapp (fst (do_get c (final c p l)))) (eiter e)) (entries r).
+Proof.
+  intros Hm H. pose proof (do_get_value_frozen c _ _ H) as (_ & Hc & Hr).
+  destruct (do_get_inv c p _ (final_inv c p l)) as (_ & Ri & _). unfold res_inv in Ri. rewrite Hr in Ri.
+  destruct Ri as (_ & [(_ & E)|(_ & _ & _ & A)]); [congruence|exact A].
+Qed.
+
+(* witness: an iterated result is converted entry by entry, once, whatever the number of retrievals *)
+Definition prog_list : prog := mkprog [] ORet false 1 5 6 [(1, [(20, Some 9)]); (2, [])].
+Definition cfg_list : cfg := mkcfg [10] [(10, None)] [(20, Some 4); (21, None)] true None code_now.
+Theorem results_list_example :
+  let l := [Act (AExec Async [3] []); Wk; Wk; Wk; Act AGet; Act AGet] in
+  map (fun e => (epay e, enconv e, ecargs e)) (match results (final cfg_list prog_list l) with Some r => entries r | None => [] end)
+  = [(1, 1%nat, [(20, Some 9); (21, None)]); (2, 1%nat, [(20, Some 4); (21, None)])].
+Proof. vm_compute. reflexivity. Qed.
 
 (* ------------------------------------------------------------------ 7. arguments *)
 Lemma exec_refused_not_started c s m a k : snd (do_exec c s m a k) <> XAccepted ->
@@ -603,7 +661,7 @@ Proof.
   destruct (do_status (nocb c) (core s)) as [t1 v1], (do_status c s) as [s1 v]; cbn in *. subst.
   destruct v; cbn; auto. destruct (negb (maybe_completed x)); cbn; auto.
   destruct (conv_pending s1); cbn; auto.
-  destruct (results s1) as [r|]; cbn; [destruct (shape r =? 0); cbn; auto|]; destruct (is_failed x); auto.
+  destruct (results s1) as [r|]; cbn; [destruct (convertible (shape r)); cbn; auto|]; destruct (is_failed x); auto.
 Qed.
 
 (* an event is harmless for the comparison if the keyword is consumed (current code) or absent *)
